@@ -61,12 +61,15 @@ fn decode(tape: &[u32], disk: DiskCfg) -> RangeCase {
             }
         })
         .collect();
-    // keys: a set of distinct integers with gaps, inserted in several statements, non-monotone
+    // keys: integers with gaps (distinct, or with repeated values), inserted in several statements, non-monotone
     let nkeys = [0usize, 1, 3, 10, 40, 120, 300][t.pick(7)];
     let mut keys: Vec<i64> = vec![];
     let mut cur = -20i64;
+    // in one case of three some keys occur several times (the engine does not enforce uniqueness;
+    // runs of equal keys then span block boundaries)
+    let dups = t.chance(1, 3);
     for _ in 0..nkeys {
-        cur += 1 + t.pick(4) as i64;
+        cur += if dups && !keys.is_empty() && t.chance(1, 3) { 0 } else { 1 + t.pick(4) as i64 };
         keys.push(cur);
     }
     // split into 1..6 statements, rows of a statement in shuffled order
@@ -358,7 +361,7 @@ pub fn def() -> PropDef {
     PropDef {
         id: "C13",
         level: "exploration",
-        rule: "tape-generated table with a primary key of type int/bigint/smallint/varchar/date at any column position, 0-300 distinct keys with gaps loaded by 1-6 INSERTs in non-monotone order with interleaved deletes and compaction ticks, disk engine with generated block/row-set sizes on a real directory; 2-6 queries `select <permuted column subset> from t where <key range> [and residual]` with bound kinds =,<,<=,>,>=,between, two-sided, reversed operands and constants present/absent/below/above; oracle: optimized disk result == unoptimized disk result (full scan + filter) == memory engine; for an int key stored first also storage-level scan(filter=range) == filter(scan) through the public storage API; non-trivial = the range selects a non-empty proper subset of a table with >= 10 rows; distinct by (key type, key position, projection width, operator, block size, size class)",
+        rule: "tape-generated table with a primary key of type int/bigint/smallint/varchar/date at any column position, 0-300 keys with gaps (distinct in two cases of three, else with runs of equal keys) loaded by 1-6 INSERTs in non-monotone order with interleaved deletes and compaction ticks, disk engine with generated block/row-set sizes on a real directory; 2-6 queries `select <permuted column subset> from t where <key range> [and residual]` with bound kinds =,<,<=,>,>=,between, two-sided, reversed operands and constants present/absent/below/above; oracle: optimized disk result == unoptimized disk result (full scan + filter) == memory engine; for an int key stored first also storage-level scan(filter=range) == filter(scan) through the public storage API; non-trivial = the range selects a non-empty proper subset of a table with >= 10 rows; distinct by (key type, key position, projection width, operator, block size, size class)",
         assumptions: vec!["the unoptimized plan (full scan followed by a filter) and the memory engine are the references", "the storage-level contract is: range on the first scanned column which is the INT primary key stored as column 0"],
         min_nontrivial: 20,
         parts: vec![part("range", 10_000, 200_000, strat, test)],
